@@ -92,6 +92,8 @@ RULE = ("symbolic run: structured replies (each TLV field of M2 present/absent/d
         "AirPlay tunnel+MRP ...), fake transports for every protocol, one protocol's accessory forged, others honest; "
         "verify-only call sites AirPlayV1.setup/play_url (no keys derived) in both runs; reconnect run: two sessions "
         "on one CompanionAPI / AP2Session / configuration, second answered by replaying the first or forged; "
+        "forged replies also carry extra/optional/duplicated TLV items (every TlvValue tag, attacker-chosen values "
+        "such as its own long-term key as PublicKey) in the sealed TLV and in the pairing data; "
         "distinct = (mode, transport or configuration+forged protocol, variant descriptor, session history)")
 ASSUMPTIONS = [
     "HAP credentials are present (service.credentials set): without credentials no pair-verify runs and no keys exist",
@@ -355,6 +357,8 @@ def build_reply(w, v, client_pub, client_priv=None):
       inner       layout of the encrypted TLV;  enc_key: key/nonce used to seal it;  enc_mut
       pub         "session" | "other"  session public key sent;  pub_mut
       outer       layout of the pairing data
+      inner_add / outer_add   extra TLV items [(tag, value, "first"|"last")] added to the sealed TLV / the
+                  pairing data; value: signer_ltpk | A_ltpk | A_id | B_id | sig | acc_pub | hex:<..>
     """
     cr = w.crypto
     if v.get("replay_prev") and getattr(w, "prev_pd", None) is not None:
@@ -417,6 +421,33 @@ def build_reply(w, v, client_pub, client_priv=None):
     else:
         raise ValueError(layout)
 
+    def extra_items(spec):
+        """extra / optional / duplicated TLV items an impostor may add, values consistent with its forgery"""
+        out_first, out_last = b"", b""
+        for tag, what, where in spec or []:
+            if what == "signer_ltpk":
+                val = cr.ed_pub(signer)
+            elif what == "A_ltpk":
+                val = w.a_ltpk
+            elif what == "A_id":
+                val = w.a_id
+            elif what == "B_id":
+                val = w.b_id
+            elif what == "sig":
+                val = sig
+            elif what == "acc_pub":
+                val = acc_pub
+            else:
+                val = binascii.unhexlify(what[4:]) if what.startswith("hex:") else what.encode()
+            if where == "first":
+                out_first += tlv_item(tag, val)
+            else:
+                out_last += tlv_item(tag, val)
+        return out_first, out_last
+
+    first, last = extra_items(v.get("inner_add"))
+    inner = first + inner + last
+
     ek = v.get("enc_key", "session")
     nonce = MSG02
     if ek == "session":
@@ -461,7 +492,8 @@ def build_reply(w, v, client_pub, client_priv=None):
         return outer, b""
     else:
         raise ValueError(outer)
-    return "bytes", pd
+    first, last = extra_items(v.get("outer_add"))
+    return "bytes", first + pd + last
 
 
 M4_RAISES = ("timeout", "protocol", "http", "auth")  # the exchange of M3 itself fails
@@ -802,6 +834,9 @@ class SetupPeer:
     client does next on the same connection, the oracle still demands that connecting fails
     and no keys are installed.  The identity offered in M6 is the one the forged reply claims."""
 
+    handshakes = 0
+    MAX_HANDSHAKES = 120
+
     def __init__(self, case):
         self.case = case
         self.session = None
@@ -817,6 +852,10 @@ class SetupPeer:
         self.requests += 1
         seq = t.get(TAG_SEQ, b"\x00")
         if seq == b"\x01":
+            SetupPeer.handshakes += 1
+            if SetupPeer.handshakes > SetupPeer.MAX_HANDSHAKES:
+                # enough evidence for one run (each SRP exchange costs ~0.1 s): refuse further pair-setups
+                return tlv_bytes([(TAG_SEQ, b"\x02"), (TAG_ERR, b"\x06")])
             ctx = SRPContext("Pair-Setup", str(PEER_PIN), prime=constants.PRIME_3072,
                              generator=constants.PRIME_3072_GEN, hash_func=hashlib.sha512, bits_salt=128)
             username, verifier, salt = ctx.get_user_data_triplet()
@@ -1372,6 +1411,8 @@ class Bench:
         from harness.core.vloop import VirtualLoop
 
         bench = self
+        SetupPeer.handshakes = 0   # budget per campaign (symbolic / real / user / reconnect), not per process
+        SetupPeer.MAX_HANDSHAKES = 120 if self.mode == "real" else 30
         self.loop = VirtualLoop()
         asyncio.set_event_loop(self.loop)
         p = self.patches
@@ -1668,6 +1709,9 @@ STRUCTURAL = [
     {"ident_mut": {"case": "swap"}}, {"ident_mut": {"case": "swap"}, "sig_ident": "A"},
     {"ident_mut": {"append": "20"}}, {"ident_mut": {"append": "0a"}}, {"ident_mut": {"prepend": "20"}},
     {"ident_mut": {"append": "20"}, "sig_ident": "A"},
+    # identifiers that are not valid UTF-8 (only bytes are ever compared)
+    {"ident_mut": {"set": "ff" * 36}}, {"ident_mut": {"set": "c328" + "41" * 34}, "sig_ident": "A"},
+    {"ident_mut": {"append": "80"}},
     {"sig_mut": {"append": "00"}},
     {"enc_mut": {"append": "00"}},
     {"ident_mut": {"trunc": 0}},
@@ -1680,6 +1724,35 @@ STRUCTURAL = [
     # X25519 ignores the top bit of the peer's u-coordinate (RFC 7748): same shared secret, other bytes
     {"pub_mut": {"flip": 255}},
 ]
+
+# Every TLV tag the code reads anywhere (hap_tlv8.TlvValue), each with a value an impostor would choose:
+# its own long-term key as PublicKey, the stored identifier as Identifier, ...
+EXTRA_TAG_VALUES = [
+    (0x00, "hex:00"), (0x01, "A_id"), (0x01, "B_id"), (0x02, "hex:" + "11" * 16), (0x03, "signer_ltpk"), (0x03, "A_ltpk"),
+    (0x03, "acc_pub"), (0x04, "hex:" + "22" * 64), (0x05, "hex:" + "33" * 24), (0x06, "hex:02"), (0x06, "hex:04"),
+    (0x07, "hex:00"), (0x08, "hex:01"), (0x09, "signer_ltpk"), (0x0A, "sig"), (0x0B, "hex:01"), (0x11, "hex:6e"),
+    (0x13, "hex:10"),
+]
+EXTRA_BASES = [{"signer": "B"}, {"signer": "client"}, {"signer": "B", "ident": "B"}, {"ident": "B"},
+               {"sigmsg": "no_own"}]
+
+
+def extra_variants():
+    """Forged replies that additionally carry extra, optional or duplicated TLV items — in the sealed TLV
+    and in the pairing data — with attacker-chosen values consistent with the forgery."""
+    out = []
+    for base in EXTRA_BASES:
+        for tag, what in EXTRA_TAG_VALUES:
+            for where in ("first", "last"):
+                out.append(dict(base, inner_add=[[tag, what, where]]))
+                out.append(dict(base, outer_add=[[tag, what, where]]))
+        out.append(dict(base, inner_add=[[0x03, "signer_ltpk", "last"], [0x01, "A_id", "first"]]))
+        out.append(dict(base, inner_add=[[0x03, "signer_ltpk", "first"]], outer_add=[[0x03, "signer_ltpk", "last"]]))
+    # the honest reply with harmless extras (reference verifier: still the honest reply)
+    for tag, what in [(0x03, "A_ltpk"), (0x00, "hex:00"), (0x11, "hex:6e")]:
+        out.append({"inner_add": [[tag, what, "last"]]})
+    return out
+
 
 REAL_ONLY = [
     {"pub_mut": {"set": "00" * 32}},                  # low-order point: exchange itself refuses
@@ -1851,7 +1924,7 @@ def run_symbolic(ctx, only=None):
     if only is not None:
         todo = only
     else:
-        variants = ACCEPTABLE + STRUCTURAL + sym_variants(ctx, rng)
+        variants = ACCEPTABLE + STRUCTURAL + extra_variants() + sym_variants(ctx, rng)
         todo = []
         for t in TRANSPORTS:
             for v in variants + M4_VARIANTS[t] + [dict(a, **m) for a in ACCEPTABLE[1:3] for m in M4_VARIANTS[t]]:
@@ -1890,7 +1963,7 @@ def run_real(ctx, only=None):
     if only is not None:
         todo = only
     else:
-        forged = STRUCTURAL + REAL_ONLY + real_variants(ctx, rng.fork("variants"))
+        forged = STRUCTURAL + REAL_ONLY + extra_variants() + real_variants(ctx, rng.fork("variants"))
         todo = []
         for t in TRANSPORTS:
             for v in ACCEPTABLE + forged + M4_VARIANTS[t]:
@@ -1903,7 +1976,7 @@ def run_real(ctx, only=None):
             for n in sorted(srng.sample(range(bits // 8), ctx.scale(4, 16))):
                 sample += field_variants(field, {"trunc": n})
         for t in VERIFY_ONLY:
-            for v in ACCEPTABLE + STRUCTURAL + REAL_ONLY + sample:
+            for v in ACCEPTABLE + STRUCTURAL + REAL_ONLY + extra_variants()[::3] + sample:
                 todo.append((t, v, w, None))
         todo += pair_entries(rng.fork("pairs"), real)
     with Bench("real") as bench:
@@ -1998,7 +2071,7 @@ def run_user(ctx, only=None):
         todo = only
     else:
         todo = [(config, None, {}, w) for config in USER_HONEST]
-        variants = list(STRUCTURAL) + REAL_ONLY
+        variants = list(STRUCTURAL) + REAL_ONLY + [x for x in extra_variants() if x.get("signer") == "B" and "ident" not in x][::2]
         for field, bits in USER_FLIPS.items():
             for i in sorted(rng.sample(range(bits), ctx.scale(3, 12))):
                 variants += field_variants(field, {"flip": i})
